@@ -28,6 +28,20 @@ func runC16(c *Check, tier string) {
 	ruleR16g(c)
 	ruleR16h(c)
 	ruleR16i(c)
+	ruleR16j(c)
+}
+
+// R16j: a loader's error reaches the caller: no function of internal/loading (nor the node-map constructor)
+// can return success after a call on its way returned an error.
+func ruleR16j(c *Check) {
+	c.Rule("R16j", "no function of internal/loading that returns an error drops the error of a call on a path to a success return (a malformed file must surface as an error, not as an empty package)", 10)
+	var fns []*ssa.Function
+	for _, fn := range c.P.Funcs {
+		if engine.InPackage(fn, "loading") && engine.ErrResultIndex(fn.Signature) >= 0 {
+			fns = append(fns, fn)
+		}
+	}
+	requireNoDroppedErrors(c, "R16j", fns, nil)
 }
 
 // R16i: the decoders fill []*T lists of the package DTO from the file; `null` entries arrive as nil
